@@ -3,6 +3,7 @@ import KrroodVerif.Model.Eql
 import KrroodVerif.Model.EqlFindings
 import KrroodVerif.Model.EqlSub
 import KrroodVerif.Model.EqlQuantFrag
+import KrroodVerif.Model.EqlIRCheck
 import KrroodVerif.Drive.EqlParse
 namespace KrroodVerif.Drive.C01
 open KrroodVerif KrroodVerif.Eql KrroodVerif.Drive.EqlParse
@@ -60,7 +61,10 @@ def run (s : Sexp) : String :=
   | some (w, q) =>
     let m := evalQuery w q.toQuery
     let sp := solutions w q
+    -- second tie (c01b): the interpreter of the translated evaluation methods (`IR.runIR IR.irTable`) must agree with
+    -- `Eql.eval` on the raw result lists; a difference is a broken check (no `spec=` field), never a violation
+    if let some why := IR.irDisagreement w q.toQuery then s!"error=model_ir differs from model ({why})" else
     -- `triggersQ`: inside the proved quantifier fragment (`quantProved`, `Props/C01Quant.lean`) the quantifier findings
     -- F-C01-5/7/11 are not offered as an excuse; `frag=ql` marks those cases (counted by the harness)
-    s!"model={showSet m}\tspec={showSet sp}\ttrig={",".intercalate (triggersQ w q)}\tseq={showSeq m}\tfrag={if quantProved w q then "ql" else "-"}"
+    s!"model={showSet m}\tspec={showSet sp}\ttrig={",".intercalate (triggersQ w q)}\tseq={showSeq m}\tfrag={if quantProved w q then "ql" else "-"}\tmodel_ir={showSet (match IR.evalQueryIR IR.irTable w q.toQuery with | .ok r => .ok r | .error (.err e) => .error e | .error (.stuck _) => .error .badOperand)}"
 end KrroodVerif.Drive.C01
